@@ -58,12 +58,19 @@ pub fn gen(rng: &mut Rng, _tier: Tier) -> Value {
     let hiding = r.chance(1, 3);
     let oracles: Vec<(usize, bool)> = (0..no).map(|_| (r.range(1, 6), r.chance(1, 2))).collect();
     let np = r.range(1, 3);
+    // every third instance with several oracles and points: one oracle is opened only at a later point
+    // (the PLONK and STARK instances open everything at the first point; the FRI API does not require it)
+    let late: Option<usize> = if oracles.len() >= 2 && np >= 2 && r.chance(1, 3) { Some(r.usize(oracles.len())) } else { None };
     let mut points = Vec::new();
     for p in 0..np {
         let mut l = Vec::new();
         for (o, (n, _)) in oracles.iter().enumerate() {
             for j in 0..*n {
-                if p == 0 || r.chance(1, 2) {
+                if late == Some(o) {
+                    if p >= 1 && (j == 0 && p == 1 || r.chance(1, 2)) {
+                        l.push((o, j));
+                    }
+                } else if p == 0 || r.chance(1, 2) {
                     l.push((o, j));
                 }
             }
@@ -285,6 +292,9 @@ fn exec_c<C: GenericConfig<D, F = F>>(case: &Case, rep: &mut Report) {
     if case.hiding {
         rep.probe("c05.hiding");
     }
+    if (0..case.oracles.len()).any(|o| !case.points[0].iter().any(|(oo, _)| *oo == o)) {
+        rep.probe("c05.oracle_not_opened_at_the_first_point");
+    }
     if !accepts(&s, &s.openings, &hc, &proof, &params) {
         return viol(rep, case, "honest", "honest_opening_proof_rejected", format!("arities {:?}", params.reduction_arity_bits));
     }
@@ -490,6 +500,32 @@ fn exec_c<C: GenericConfig<D, F = F>>(case: &Case, rep: &mut Report) {
                 if !legit && accepts(&s, &s.openings, &c2, &p2, &strict) {
                     viol(rep, case, "grinding", "accepted_insufficient_proof_of_work", format!("response {}", c2.fri_pow_response));
                 }
+            }
+        }
+    }
+
+    // ---- (e') the proof-of-work threshold itself, under fixed challenges: a response one bit short of the
+    // demanded leading zeros is rejected, a response with exactly that many is accepted
+    if want("grinding") {
+        for b in [1u32, 7, 16, 33] {
+            let mut strict = params.clone();
+            strict.config.proof_of_work_bits = b;
+            let mz = min_zeros(&strict);
+            if mz == 0 || mz >= 64 {
+                continue;
+            }
+            let mut short = clone_ch(&hc);
+            short.fri_pow_response = F::from_canonical_u64(1u64 << (64 - mz));
+            let mut exact = clone_ch(&hc);
+            exact.fri_pow_response = F::from_canonical_u64((1u64 << (64 - mz)) - 1);
+            rep.fault("pow_response_one_bit_short");
+            rep.case(base_sig ^ hash_str("pow_short") ^ b as u64, true);
+            if accepts(&s, &s.openings, &short, &proof, &strict) {
+                viol(rep, case, "grinding", "accepted_insufficient_proof_of_work", format!("{b} bits demanded, response {} has {} leading zeros", short.fri_pow_response, mz - 1));
+            }
+            rep.case(base_sig ^ hash_str("pow_exact") ^ b as u64, true);
+            if !accepts(&s, &s.openings, &exact, &proof, &strict) {
+                viol(rep, case, "grinding", "rejected_sufficient_proof_of_work", format!("{b} bits demanded, response {} has exactly {} leading zeros", exact.fri_pow_response, mz));
             }
         }
     }
